@@ -223,6 +223,12 @@ def run_one(ch, cfg):
         # repairs the connection (bring-up through the bootloader on the reconnection path)
         serve_phase = platform == "ledger" and ch.draw(4, "start-unlocked-then-power-cycle") == 1
         life["serve_phase"] = serve_phase
+        # the "crash" may instead be the operator's Ctrl-C (SIGINT): KeyboardInterrupt in the main
+        # thread at that seam - handlers and finally blocks run, the process ends when it decides to
+        w.interrupt_at = None
+        if fk == FK_CRASH and ch.draw(3, "crash-is-operator-interrupt") == 1:
+            w.interrupt_at, w.crash_at = w.crash_at, None
+            life["fault"] = ("interrupt", fp)
         if serve_phase:
             dev.mode = L.MODE_SIGNER
         accepts_before = len(w.net.accept_order)
@@ -308,6 +314,8 @@ def run_one(ch, cfg):
         if w.net.listener is not None:
             w.net.listener.close()
         crashed = any(c[0] == proc for c in w.crashed)
+        interrupted = any(c[0] == proc for c in w.interrupted)
+        w.interrupt_at = None
         new_acks = dev.newpin_acks[acks_before:]
         new_seen = [p for (kind, p) in dev.pins_seen[seen_before:] if kind == "newpin"]
         life["attempt"] = bool(new_seen) or change_started(link, transport0) or (
@@ -327,6 +335,8 @@ def run_one(ch, cfg):
         if new_acks:
             if crashed:
                 cause = "ack-then-crash-before-commit"
+            elif interrupted:
+                cause = "ack-then-interrupt-before-commit"
             elif life["commit_fault"] == "pin-file":
                 cause = "commit-io-error"
             elif life["commit_fault"]:
@@ -380,7 +390,8 @@ def run_one(ch, cfg):
     faults = {}
     for h in history:
         if h["fault"]:
-            key = h["fault"][0] + "." + (str(h["fault"][2]) if h["fault"][0] != "crash" else "seam")
+            key = h["fault"][0] + "." + (str(h["fault"][2]) if h["fault"][0] not in ("crash", "interrupt")
+                                         else "seam")
             faults[key] = faults.get(key, 0) + 1
     return {"violations": viol, "digest": w.log.digest(),
             "state": (platform, init, tuple(life_states)),
@@ -396,7 +407,7 @@ def run_one(ch, cfg):
 def _posclass(f):
     if not f:
         return None
-    if f[0] == "crash":
+    if f[0] in ("crash", "interrupt"):
         return f[1] // 10
     return str(f[1])
 
@@ -418,15 +429,18 @@ class _Enum:
                     head = [plat, init, 1, 0]       # 2 lifetimes, honest entropy
                     for seam in range(nseams):
                         if seam < 256:
-                            self.items.append(head + [force, newpin, FK_CRASH, seam, 0, 0, 0, 0, 0])
+                            self.items.append(head + [force, newpin, FK_CRASH, seam] + [0] * 8)
+                            # ... and the operator's Ctrl-C at the same seam (draws that follow the
+                            # position: power cycle, [Ledger: start unlocked], interrupt)
+                            self.items.append(head + [force, newpin, FK_CRASH, seam] +
+                                              ([0, 0, 1] if plat == 0 else [0, 1]) + [0] * 6)
                     for op in range(12):
                         for n in range(3):
-                            self.items.append(head + [force, newpin, FK_FS, op * 8 + n, 0, 0, 0, 0, 0])
+                            self.items.append(head + [force, newpin, FK_FS, op * 8 + n] + [0] * 8)
                     nk = len(HID_KINDS) if plat == 0 else len(TCP_KINDS)
                     for ordinal in range(20 if plat == 0 else 3):
                         for kd in range(nk):
-                            self.items.append(head + [force, newpin, FK_LINK, ordinal * 8 + kd,
-                                                      0, 0, 0, 0, 0])
+                            self.items.append(head + [force, newpin, FK_LINK, ordinal * 8 + kd] + [0] * 8)
 
     def __len__(self):
         return len(self.items)
